@@ -109,6 +109,15 @@ def _transform(case, with_units):
             s = models.Shift(-ax["b"] * k) | models.Multiply(1.0 / (ax["a"] * k))
             inv = s if inv is None else inv & s
         t.inverse = inv
+    if (not with_units) and case.get("mixed_rev"):
+        # the other way round: a user-supplied inverse WITH units (quantities in frame units -> pixels) on the unit-free forward transform
+        inv = None
+        for i_ax, ax in enumerate(case["axes"]):
+            k = float(UNITS[ax["tout"]][1] / UNITS[ax["world"]][1])
+            wu_ = u.Unit(ax["world"])
+            s = models.Shift(-ax["b"] * k * wu_) | models.Multiply(1.0 / (ax["a"] * k) * _pixu(case, i_ax) / wu_)
+            inv = s if inv is None else inv & s
+        t.inverse = inv
     return t
 
 
@@ -251,7 +260,9 @@ def impl(case):
         altq = [q.to(u.Unit(a["alt"])) for q, a in zip(alt, ax)]
         r["inv_alt"] = _try(lambda: _vals(w.invert(*altq)))
         r["inv_frame_q"] = _try(lambda: _vals(w.invert(*alt)))
-        if nm == "t":
+        if nm == "t" and not case.get("mixed_rev"):
+            # (bare numbers go to the backward transform as they are: a unit-carrying inverse rejects them, as a unit-carrying forward
+            # transform rejects bare pixels)
             r["inv_bare"] = _try(lambda: _vals(w.invert(*worldarg)))
         r["w2p_alt"] = None
         # world inputs as objects (other sky frame / SpectralCoord in another unit / Time)
@@ -423,7 +434,7 @@ def _model_axes(case, twin):
 def request(case, res):
     if case["family"] == "frames3":
         return None
-    if case["family"] == "tan" or case["array"] or "err" in res["q"]["p2wv"] or case.get("pixu"):
+    if case["family"] == "tan" or case["array"] or "err" in res["q"]["p2wv"] or case.get("pixu") or case.get("mixed_rev"):
         return None
     pix = [Fraction(p[0]) for p in case["pix"]]
     reqs = []
@@ -564,6 +575,8 @@ def _gen_main(rng, tier):
             case["obj_sky"] = rng.choice(["icrs", "fk5", "galactic", "fk4", "fk5_1975"])
         if fam in ("spectral", "temporal", "generic") and rng.random() < 0.3:
             case["mixed"] = True
+        elif fam in ("spectral", "generic") and rng.random() < 0.25:
+            case["mixed_rev"] = True
         if fam == "temporal":
             case["epoch"] = rng.choice([None, "2016-12-31T12:00:00", "1999-12-31T12:00:00"])
             case["tscale"] = rng.choice([None, "tai", "tt", "utc"])
